@@ -747,33 +747,40 @@ func (ce *closeEval) closesOnFalse(f *core.Func, entry core.Facts, depth int) bo
 				continue
 			}
 			r := ast.Unparen(ret.Results[0])
-			if tv, isConst := m.Info.Types[r]; isConst && tv.Value != nil {
-				if constant.BoolVal(tv.Value) {
-					continue
+			// closes(e): whenever e evaluates to false, the closer has been called
+			var closes func(e ast.Expr) bool
+			closes = func(e ast.Expr) bool {
+				e = ast.Unparen(e)
+				if tv, isConst := m.Info.Types[e]; isConst && tv.Value != nil {
+					return constant.BoolVal(tv.Value) // constant true is never false; constant false does not close
 				}
-				ok = false
-				ce.why = fmt.Sprintf("%s returns false at %s without Close", f.Name, ce.c.At(ret.Pos()))
-				continue
-			}
-			if call, isCall := r.(*ast.CallExpr); isCall {
-				if k, cal, _ := m.Callee(call); k == core.CallStatic && cal.Recv == f.Recv && returnsBool(cal) {
-					// translate facts about the receiver's fields to the callee's receiver name
-					sub := core.Facts{}
-					calRecv := ""
-					if cal.Decl != nil && cal.Decl.Recv != nil && len(cal.Decl.Recv.List[0].Names) > 0 {
-						calRecv = cal.Decl.Recv.List[0].Names[0].Name
+				switch x := e.(type) {
+				case *ast.BinaryExpr:
+					switch x.Op.String() {
+					case "||":
+						return closes(x.X) || closes(x.Y) // both operands were evaluated to false
+					case "&&":
+						return closes(x.X) && closes(x.Y) // either operand may be the false one
 					}
-					for k2, v := range cur.Facts {
-						if recvName != "" && strings.HasPrefix(k2, recvName+".") {
-							sub[calRecv+strings.TrimPrefix(k2, recvName)] = v
+				case *ast.CallExpr:
+					if k, cal, _ := m.Callee(x); k == core.CallStatic && cal.Recv == f.Recv && returnsBool(cal) {
+						sub := core.Facts{}
+						calRecv := ""
+						if cal.Decl != nil && cal.Decl.Recv != nil && len(cal.Decl.Recv.List[0].Names) > 0 {
+							calRecv = cal.Decl.Recv.List[0].Names[0].Name
 						}
+						for k2, v := range cur.Facts {
+							if recvName != "" && strings.HasPrefix(k2, recvName+".") {
+								sub[calRecv+strings.TrimPrefix(k2, recvName)] = v
+							}
+						}
+						return ce.closesOnFalse(cal, sub, depth+1)
 					}
-					if ce.closesOnFalse(cal, sub, depth+1) {
-						continue
-					}
-					ok = false
-					continue
 				}
+				return false
+			}
+			if closes(r) {
+				continue
 			}
 			ok = false
 			ce.why = fmt.Sprintf("%s returns a value that may be false at %s without Close", f.Name, ce.c.At(ret.Pos()))
